@@ -165,6 +165,10 @@ func (m *Machine) jsonUnmarshal(data Value, dst Value) Value {
 		}
 		if pt != nil && types.AssignableTo(src.typ, pt.Elem()) {
 			val := m.deepCopy(src.v, map[*Obj]*Obj{})
+			if m.genericJSONDest(pt.Elem()) {
+				// decoding into interface{} turns every JSON number into a float64
+				val = m.floatify(val)
+			}
 			if types.IsInterface(pt.Elem()) {
 				val = IfaceVal{typ: src.typ, v: val}
 			}
@@ -222,4 +226,72 @@ func (m *Machine) jsonUnmarshal(data Value, dst Value) Value {
 func init() {
 	regV("encoding/json.Marshal", func(m *Machine, g *Goroutine, a []Value) Value { return m.jsonMarshal(a[0]) })
 	regV("encoding/json.Unmarshal", func(m *Machine, g *Goroutine, a []Value) Value { return m.jsonUnmarshal(a[0], a[1]) })
+}
+
+// genericJSONDest: interface{} or []interface{} / map[string]interface{} destinations.
+func (m *Machine) genericJSONDest(t types.Type) bool {
+	switch u := t.Underlying().(type) {
+	case *types.Interface:
+		return u.NumMethods() == 0
+	case *types.Slice:
+		return m.genericJSONDest(u.Elem())
+	case *types.Map:
+		return m.genericJSONDest(u.Elem())
+	}
+	return false
+}
+
+// floatify replaces every symbolic integer leaf by "some number within float64
+// rounding distance of it": exact up to 2^53, within 2^10 beyond (int64 range).
+func (m *Machine) floatify(v Value) Value {
+	switch x := v.(type) {
+	case *Term:
+		if x.sort != SInt || x.isConst() {
+			return x
+		}
+		if m.floatCache == nil {
+			m.floatCache = map[string]*Term{}
+		}
+		if r, ok := m.floatCache[x.String()]; ok {
+			return r // float64(n) is a function of n
+		}
+		r := mkVar(m.uniqueName("float64of"), SInt, nil, nil)
+		m.declare(r)
+		m.floatCache[x.String()] = r
+		// float64(x): exact below 2^53; for 2^k <= |x| < 2^(k+1) the nearest multiple of 2^(k-52) (ties either way)
+		ax := tIte(tLt(x, mkInt(0)), tNeg(x), x)
+		cs := []*Term{tImplies(tLt(ax, mkIntBig(pow2(53))), tEq(r, x))}
+		for k := 53; k <= 63; k++ {
+			g := mkIntBig(pow2(k - 52))
+			in := tAnd(tLe(mkIntBig(pow2(k)), ax), tLt(ax, mkIntBig(pow2(k+1))))
+			d := tSub(r, x)
+			ad := tIte(tLt(d, mkInt(0)), tNeg(d), d)
+			cs = append(cs, tImplies(in, tAnd(tEq(tEMod(r, g), mkInt(0)), tLe(tMul(mkInt(2), ad), g))))
+		}
+		m.assume(tAnd(cs...))
+		return r
+	case StructVal:
+		f := make([]Value, len(x.f))
+		for i := range f {
+			f[i] = m.floatify(x.f[i])
+		}
+		return StructVal{f}
+	case IfaceVal:
+		if x.typ == nil {
+			return x
+		}
+		return IfaceVal{typ: x.typ, v: m.floatify(x.v)}
+	case SliceVal:
+		if x.arr == nil {
+			return x
+		}
+		if arr, ok := x.arr.v.(ArrayVal); ok {
+			e := make([]Value, len(arr.e))
+			for i := range e {
+				e[i] = m.floatify(arr.e[i])
+			}
+			return SliceVal{arr: m.newObj(ArrayVal{e}, x.arr.typ, "floatified"), off: x.off, len: x.len, cap: x.cap}
+		}
+	}
+	return v
 }
